@@ -156,3 +156,41 @@ def _mk_olb(name):
 
 olb_fasta, olb_fastq = _mk_olb("TwoLineFastaBuffer"), _mk_olb("FastQBuffer")
 CONTRACTS += [olb_fasta, olb_fastq]
+
+
+# --- VCF: POS is 1-based in the file and 0-based in memory: VCFBuffer._get_field_by_number subtracts 1 from field 1 and from no other field -----------
+def _VB():
+    from bionumpy.io.vcf_buffers import VCFBuffer
+    return VCFBuffer
+
+
+_hv = {}
+
+
+def _setup_vcf_field(nr):
+    def setup(ctx):
+        st = St()
+        st.n = z3.Int("n")
+        st.parsed = z3.Function("parsed_text_value", z3.IntSort(), z3.IntSort())
+        st.selfv = SRec(_VB())
+        st.args = [nr, int]
+        _hv["st"] = st
+        return st
+    return setup
+
+
+def _parsed(ip, args, kwargs, lineno):
+    st = _hv["st"]
+    st.col = SArr.fresh(st.n, lambda i: st.parsed(I(i)))
+    return st.col
+
+
+vcf_pos = Contract("C02.VCFBuffer._get_field_by_number[POS]", target=lambda: _VB()._get_field_by_number, setup=_setup_vcf_field(1), requires=lambda ctx, st: [st.n >= 0],
+                   ensures=lambda ctx, st, ret: [("position = POS - 1", Forall(lambda i: Implies(in_range(i, st.n), I(ret.at(i)) == st.parsed(i) - 1))), ("rows", I(ret.length) == st.n)],
+                   callees={"bionumpy.io.delimited_buffers.DelimitedBuffer._get_field_by_number": _parsed},
+                   canaries=[("POS kept 1-based", "val -= 1", "val -= 0"), ("wrong column shifted", "if field_nr == 1:", "if field_nr == 2:")])
+vcf_other = Contract("C02.VCFBuffer._get_field_by_number[other column]", target=lambda: _VB()._get_field_by_number, setup=_setup_vcf_field(5), requires=lambda ctx, st: [st.n >= 0],
+                     ensures=lambda ctx, st, ret: [("value.as.parsed", Forall(lambda i: Implies(in_range(i, st.n), I(ret.at(i)) == st.parsed(i)))), ("rows", I(ret.length) == st.n)],
+                     callees={"bionumpy.io.delimited_buffers.DelimitedBuffer._get_field_by_number": _parsed},
+                     canaries=[("every column shifted", "if field_nr == 1:", "if field_nr >= 1:")])
+CONTRACTS += [vcf_pos, vcf_other]
